@@ -219,6 +219,15 @@ def run(ctx: Any, prog: Program) -> None:
     p = g.find_path_flags(g.entry, {g.exit.id, g.raise_.id}, removed_nodes={n.id for n in unlink_nodes}, removed_edges=removed_edges)
     ctx.check('C12.W3', p is None, core, ex, 'a path leaves __exit__ without having replaced the destination and without trying to unlink the temp file, so a handled '
               'failure leaves tmp_N behind' + (': ' + g.describe(p) if p else ''), func='AtomicWriter.__exit__', text='unlink on every non-committing exit')
+    # W6: once replace() has succeeded the temp name is no longer this writer's: another writer in the same directory may already have created
+    # a file under it (the exclusive open succeeds again as soon as the name is free).  No path from a successful replace() may reach an unlink.
+    ctx.rule('C12.W6', 'after a successful replace() the temp name is not touched again (no unlink on the committed path)', floor=1)
+    for r in replace_nodes:
+        exc_out = {(r.id, m, lab) for m, lab in g.succ[r.id] if lab == 'exc'}
+        p6 = g.find_path_flags(r, {n.id for n in unlink_nodes}, removed_edges=exc_out)
+        ctx.check('C12.W6', p6 is None, core, unlink_nodes[0].stmt if unlink_nodes and p6 else r.stmt, 'the temp name is unlinked on the path on which replace() succeeded' + (': ' + g.describe(p6) if p6 else '') +
+                  ' - by then the name may belong to a second writer (its exclusive create succeeds once the rename freed the name), whose half-written file is deleted',
+                  func='AtomicWriter.__exit__', text='no unlink after the commit')
     # ---- W4 ----------------------------------------------------------------------------------------------
     mt = aw.get('make_tempfile')
     if mt is None:
@@ -385,6 +394,7 @@ def run(ctx: Any, prog: Program) -> None:
 
 
 MUTANTS = [
+    {'id': 'unlink_after_commit', 'file': '__init__.py', 'find': "            if not committed:\n                # An exception occurred in the body, or while closing/renaming. Clean up.\n                try:\n                    self._temp_name.unlink()\n                except OSError:\n                    pass\n", 'replace': "            try:\n                self._temp_name.unlink(missing_ok=True)\n            except OSError:\n                pass\n", 'expect': 'C12.W6'},
     {'id': 'close_error_swallowed', 'file': '__init__.py', 'find': "                temp.__exit__(exc_type, exc_value, tback)\n", 'replace': "                try:\n                    temp.__exit__(exc_type, exc_value, tback)\n                except OSError:\n                    temp.close()\n", 'expect': 'C12.W2'},
     {'id': 'empty_temp_file_taken_over', 'file': '__init__.py', 'find': "                if self.is_bytes:  # type checkers can't narrow self from this!\n                    self.temp = self._temp_name.open('xb')  # type: ignore", 'replace': "                mode = 'w' if self._temp_name.exists() and self._temp_name.stat().st_size == 0 else 'x'\n                if self.is_bytes:  # type checkers can't narrow self from this!\n                    self.temp = self._temp_name.open(mode + 'b')  # type: ignore", 'expect': 'C12.W4'},
     {'id': 'commit_through_shutil_move', 'file': '__init__.py', 'find': "                self._temp_name.replace(self.filename)\n                committed = True", 'replace': "                import shutil\n                shutil.move(self._temp_name, self.filename)\n                committed = True", 'expect': 'C12.W2'},
